@@ -391,6 +391,9 @@ func (ex *Exec) learn(c *term.T, v bool) {
 		ex.learn(c.A[1], false)
 	}
 	ex.facts[c.H] = append(ex.facts[c.H], fact{c, v})
+	if paranoid && !ex.needModel {
+		defer ex.checkRanges(c)
+	}
 	// interval refinement from simple comparisons with constants
 	switch c.Op {
 	case term.OUlt:
@@ -419,6 +422,31 @@ func (ex *Exec) learn(c *term.T, v bool) {
 			}
 		}
 	}
+}
+
+// checkRanges (paranoid mode): every interval recorded on a node of c contains the node's value under the
+// current model, which satisfies the path condition.
+func (ex *Exec) checkRanges(c *term.T) {
+	ev := term.NewEvaluator(ex.model.Clone())
+	seen := map[*term.T]bool{}
+	var walk func(t *term.T)
+	walk = func(t *term.T) {
+		if seen[t] || t.IsConst() {
+			return
+		}
+		seen[t] = true
+		if t.W != 0 {
+			lo, hi := t.Range()
+			if v := ev.Eval(t); v < lo || v > hi {
+				fmt.Printf("PARANOID range: node %s has interval [%d,%d] but evaluates to %d (learning %s)\n", t, lo, hi, v, c)
+				panic("paranoid range")
+			}
+		}
+		for _, a := range t.A {
+			walk(a)
+		}
+	}
+	walk(c)
 }
 
 // known reports whether the truth of c is already implied syntactically by the path condition.
@@ -586,8 +614,8 @@ func (ex *Exec) Assume(c *term.T) {
 	r, m := ex.check(c, true)
 	switch r {
 	case smt.Sat:
-		ex.addPC(c)
 		ex.setModel(m)
+		ex.addPC(c)
 	case smt.Unsat:
 		panic(pathEnd{kind: endInfeasible})
 	default:
@@ -686,6 +714,15 @@ func (ex *Exec) Assert(c *term.T, label string) {
 			ex.proved[label]++
 			return
 		}
+		switch r, _ := ex.solver.Check(append([]*term.T(nil), ex.pc...), false); r {
+		case smt.Sat:
+		case smt.Unsat:
+			ex.inconc = append(ex.inconc, "engine inconsistency: the solver finds the path condition infeasible at a failed obligation "+label+" at "+ex.site())
+			panic(pathEnd{kind: endUnknown, msg: "evaluator/solver disagreement"})
+		default:
+			ex.inconc = append(ex.inconc, "solver unknown when confirming a violation of "+label)
+			panic(pathEnd{kind: endUnknown, msg: "unknown while confirming a violation"})
+		}
 		ex.report(label, ex.repoSite(), "assertion false on feasible path", ex.model.Clone())
 		panic(pathEnd{kind: endViolation})
 	}
@@ -694,7 +731,19 @@ func (ex *Exec) Assert(c *term.T, label string) {
 		return
 	}
 	if !ex.evalBool(c) {
-		ex.report(label, ex.repoSite(), "assertion violated: "+c.String(), ex.model.Clone())
+		// the current model claims a violation: have the solver confirm that the whole path condition
+		// together with the negated obligation is satisfiable (guards against evaluator/solver disagreement)
+		q := append(append([]*term.T(nil), ex.pc...), term.BNot(c))
+		switch r, _ := ex.solver.Check(q, false); r {
+		case smt.Sat:
+			ex.report(label, ex.repoSite(), "assertion violated: "+c.String(), ex.model.Clone())
+		case smt.Unsat:
+			ex.inconc = append(ex.inconc, "engine inconsistency: model evaluation and solver disagree on obligation "+label+" at "+ex.site())
+			panic(pathEnd{kind: endUnknown, msg: "evaluator/solver disagreement"})
+		default:
+			ex.inconc = append(ex.inconc, "solver unknown when confirming a violation of "+label)
+			panic(pathEnd{kind: endUnknown, msg: "unknown while confirming a violation"})
+		}
 	} else {
 		r, m := ex.check(term.BNot(c), true)
 		if traceQ {
